@@ -156,7 +156,7 @@ def case(d):
     elif k == 1:  # a badly named macro
         p = family.member_of(d, violating=1.0, opts={"force": ("define",)}, only=("P01",))
     else:
-        p = family.member_of(d, prefer=("D11", "D12", "F03", "P01", "T06", "T07", "T08", "T09", "D07", "D09"))
+        p = family.member_of(d, prefer=("D11", "D12", "F03", "P01", "T06", "T07", "T08", "T09", "D07", "D09"), opts={"decorate": True})
     return p, renaming(d, p, 0.8 if k <= 3 else 0.3)
 
 
